@@ -224,7 +224,7 @@ def histories(draw, mode, max_steps=5, max_dims=4, max_len=3):
 
 class History(Facet):
     name = "history"
-    examples = {"quick": 6000, "thorough": 120000}
+    examples = {"quick": 6000, "thorough": 360000}
     shards = {"quick": 8, "thorough": 16}
 
     def strategy(self, tier):
@@ -236,7 +236,7 @@ class History(Facet):
 
 class Sym(Facet):
     name = "sym"
-    examples = {"quick": 1600, "thorough": 30000}
+    examples = {"quick": 1600, "thorough": 90000}
     shards = {"quick": 16, "thorough": 16}
 
     def strategy(self, tier):
